@@ -113,12 +113,29 @@ Theorem C18_preserves_rest_partial :
     let stf := run enc dec st0 h in
     (forall k, k <> configFieldAuths -> k <> configFieldCredentialsStore ->
                file_top k (st_file stf) = file_top k f) /\
-    (forall s, s <> [] -> file_top configFieldCredentialsStore f = Some (TCs s) ->
+    ((forall o, In o h -> ~ is_setcs o) ->
+     forall s, s <> [] -> file_top configFieldCredentialsStore f = Some (TCs s) ->
                file_top configFieldCredentialsStore (st_file stf) = Some (TCs s)) /\
     (forall a, (forall o, In o h -> ~ writes a o) ->
                file_entry a (st_file stf) = file_entry a f).
 Proof. exact preserves_rest_partial. Qed.
 Print Assumptions C18_preserves_rest_partial.
+
+(* Config.SetCredentialsStore (the fourth saving operation, used by DynamicStore.Put
+   once a native store is detected): the file gets exactly the new credsStore
+   (the key is dropped for ""), the auths and every other key stay; it is a
+   writer operation of the concurrent model like Put and Delete *)
+Theorem C18_set_creds_store :
+  forall (enc : str -> str) (dec : str -> option str) st s,
+    let st' := fst (step enc dec st (SetCs s)) in
+    snd (step enc dec st (SetCs s)) = ROk /\
+    cache_of st' = cache_of st /\
+    file_top configFieldCredentialsStore (st_file st') = cs_value s /\
+    file_top configFieldAuths (st_file st') = Some (TAuths (cache_of st)) /\
+    (forall k, k <> configFieldAuths -> k <> configFieldCredentialsStore ->
+               file_top k (st_file st') = lookup k (m_content (st_mem st))).
+Proof. exact setcs_step. Qed.
+Print Assumptions C18_set_creds_store.
 
 Theorem C18_preserves_rest_refuted :
   forall (enc : str -> str) (dec : str -> option str),
